@@ -78,7 +78,30 @@ FIRST.update({"C03-j": "false alarm (C03.R3: validate delegating to a module-lev
 for r_ in ("C03", "C04", "C05", "C07", "C08", "C10", "C11", "C12", "C14", "C15", "C16", "C18", "C19", "C20"):
     for x_ in "jkl":
         FIRST.setdefault(f"{r_}-{x_}", "silent")
+# fifth round (after the sixth seeding round): /tmp/benign5_out/CNN/{a,b} are stored as CNN-m, -n
+FIRST.update({"C01-m": "relocated known defect + analysis error (C18.R2: Random.uniform)", "C01-n": "relocated known defect",
+              "C02-m": "false alarm (C02.R2 / R3: a per-call helper object and **kwargs were not followed) + analysis errors (creation model) + relocated known defect",
+              "C02-n": "false alarm (C01.R1 list comprehension over an unknown count, C01.R2 starred use, C04.R8 / C08.R4 cached text splitter, C11.R1 base draws through a methodcaller table) + analysis errors",
+              "C04-m": "silent", "C04-n": "false alarm (C01.R1 / C02.R2 / C03.R5 / C05.R1: getattr with a sentinel default was not modelled - forks taken as behaviour) + analysis errors (dict subclass with __missing__)",
+              "C06-m": "silent", "C06-n": "analysis error (C06.R2 / R3, C09.R3 floors: operators in a template base class)",
+              "C09-m": "analysis error (C09.R5 / C13.R5: Problem.evaluate as a template method) + relocated known defect", "C09-n": "false alarm (C15.R2 / C16.R3: [*population] counted as one element)",
+              "C10-m": "false alarm (C07.R5 / C08.R4: cached_property is per-instance) + analysis errors (properties on model objects, frozenset)",
+              "C10-n": "false alarm (C08.R1: chain.from_iterable(map(f, S)) feeding set())",
+              "C12-m": "silent", "C12-n": "analysis error (module-level attrgetter constant)",
+              "C13-m": "analysis error (vars(self))", "C13-n": "false alarm (C13.R3: list repetition unmodelled - forks taken as behaviour) + analysis errors (id(), partial mapper)",
+              "C17-m": "analysis error (np.fromiter / flatnonzero)", "C17-n": "analysis error (callee looked up in a class-level table)",
+              "C18-m": "silent", "C18-n": "false alarm (C18.R3: 'del lst[-1]' was ignored by the interpreter) + relocated known defect"})
 os.makedirs(DST, exist_ok=True)
+for p in sorted(glob.glob("/tmp/benign5_out/C*/[ab]/patch.diff")):
+    src = os.path.dirname(p)
+    name = p.split("/")[3] + "-" + {"a": "m", "b": "n"}[p.split("/")[4]]
+    d = os.path.join(DST, name)
+    if os.path.exists(os.path.join(d, "patch.diff")):
+        continue
+    os.makedirs(d, exist_ok=True)
+    for fn in ("patch.diff", "notes.md", "check.py"):
+        if os.path.exists(os.path.join(src, fn)):
+            shutil.copy(os.path.join(src, fn), os.path.join(d, fn))
 for p in sorted(glob.glob("/tmp/benign4_out/C*/[abc]/patch.diff")):
     src = os.path.dirname(p)
     name = p.split("/")[3] + "-" + {"a": "j", "b": "k", "c": "l"}[p.split("/")[4]]
